@@ -590,6 +590,54 @@ def check_three(nm, f, d, lw):
                    z, "finite, real part >= 1, imaginary part >= 0")
 
 
+SUBMODEL_FNS = ["wetsnow_permittivity_tinga73", "wetsnow_permittivity_colbeck80_caseI", "wetsnow_permittivity_colbeck80_caseII",
+                "wetsnow_permittivity_colbeck80_caseIII", "wetsnow_permittivity_wiesmann99", "wetsnow_permittivity_memls",
+                "wetsnow_permittivity_three_component_polder_van_santen"]
+
+
+def check_history(nm, f, d, lw):
+    """deterministic = a function of the arguments: the value with the default ice / water sub-models is the same before and after a call
+    of the same formula with other sub-models given explicitly"""
+    import inspect
+    from smrt.permittivity import snow_mixing_formula as smf
+    from smrt.permittivity.ice import ice_permittivity_tiuri84
+    from smrt.permittivity.water import water_permittivity_tiuri80
+    fn = getattr(smf, nm)
+    pars = inspect.signature(getattr(fn, "__wrapped__", fn)).parameters
+    kw = {}
+    if "ice_permittivity_model" in pars:
+        kw["ice_permittivity_model"] = ice_permittivity_tiuri84
+    if "water_permittivity_model" in pars:
+        kw["water_permittivity_model"] = water_permittivity_tiuri80
+    v0 = run(fn, (f, FP, d, lw))
+    run(lambda *a: fn(*a, **kw), (f, FP, d, lw))
+    v1 = run(fn, (f, FP, d, lw))
+    same = (isinstance(v0, str) and v0 == v1) or (not isinstance(v0, str) and not isinstance(v1, str) and complex(v0) == complex(v1))
+    if same:
+        return None
+    return Finding(f"snow_mixing_formula.{nm}:history", f"{nm}({f}, {FP}, {d}, {lw}) = {v0} before and {v1} after a call of the same formula with "
+                   f"{sorted(kw)} given explicitly", {"check": "history", "fn": nm, "args": [f, d, lw]}, [str(v0), str(v1)], "the same value")
+
+
+def check_shape_forms(f, T, vb, w):
+    """the documented equivalent ways of prescribing a mixture of brine inclusion shapes give one value: a dict {shape: ratio} in either
+    insertion order, and a tuple of shapes with brine_mixing_ratio"""
+    from smrt.permittivity.saline_ice import saline_ice_permittivity_pvs_mixing as fn
+    vals = {"dict spheres-first": run(lambda: fn(f, T, vb, brine_inclusion_shape={"spheres": w, "random_needles": 1 - w}), ()),
+            "dict needles-first": run(lambda: fn(f, T, vb, brine_inclusion_shape={"random_needles": 1 - w, "spheres": w}), ()),
+            "tuple + brine_mixing_ratio": run(lambda: fn(f, T, vb, brine_inclusion_shape=("spheres", "random_needles"), brine_mixing_ratio=w), ())}
+    ref = vals["tuple + brine_mixing_ratio"]
+    for k, v in vals.items():
+        if isinstance(v, str) or isinstance(ref, str):
+            if v != ref:
+                return Finding("saline_ice.saline_ice_permittivity_pvs_mixing:shape-forms", f"saline_ice_permittivity_pvs_mixing({f}, {T}, {vb}) with {w:.3f} spheres: "
+                               f"{k} -> {v}, tuple form -> {ref}", {"check": "shapes", "args": [f, T, vb, w]}, [str(v), str(ref)], "equal")
+        elif abs(complex(v) - complex(ref)) > 1e-9 * abs(complex(ref)):
+            return Finding("saline_ice.saline_ice_permittivity_pvs_mixing:shape-forms", f"saline_ice_permittivity_pvs_mixing({f}, {T}, {vb}) with {w:.3f} spheres: "
+                           f"{k} -> {complex(v)}, tuple form -> {complex(ref)}", {"check": "shapes", "args": [f, T, vb, w]}, [complex(v), complex(ref)], "equal")
+    return None
+
+
 def check_alt(nm1, nm2, args, rel):
     S = by_name()
     a, b = run(S[nm1].call, args), run(S[nm2].call, args)
@@ -686,6 +734,12 @@ def oracle(ctx, hints, effort):
         for _ in range(max(6, n // 2)):
             evals += 1
             keep(check_three(nm, float(rng.choice(FREQS)), float(rng.uniform(60, 910)), float(rng.choice([0.05, 0.2, 0.35, 0.5, 0.65, 0.8, 0.95]))))
+    for _ in range(6):
+        evals += 3
+        keep(check_shape_forms(float(rng.choice(FREQS)), float(rng.choice(T_BRINE_CLOSED)), float(rng.choice([0.01, 0.05, 0.15])), float(rng.choice([0.1, 0.3, 0.7]))))
+    for nm in SUBMODEL_FNS:
+        evals += 3
+        keep(check_history(nm, float(rng.choice(FREQS)), float(rng.uniform(150, 600)), float(rng.choice([0.02, 0.08, 0.2]))))
     for nm, args in adm_cases(rng, n):
         evals += 1
         keep(check_admissible(nm, args))
@@ -748,6 +802,10 @@ def replay(inp, rp=None):
         return check_guard(inp["fn"], tuple(inp["args"]))
     if c == "array":
         return check_array(inp["fn"], inp["ai"], [tuple(r) for r in inp["rows"]])
+    if c == "shapes":
+        return check_shape_forms(*inp["args"])
+    if c == "history":
+        return check_history(inp["fn"], *inp["args"])
     if c == "reference":
         return check_reference(inp["fn"], inp["args"], reference=inp["reference"])
     if c == "three":
